@@ -90,9 +90,18 @@ func (r *RespValue) Equal(that *RespValue) bool {
 }
 
 func newError(s string) *RespValue {
+	// An error reply is terminated by CRLF, so make sure there are no newlines
+	// in the message (it may contain client-supplied bytes, e.g. a command
+	// name), otherwise the client would see more than one reply.
+	text := []byte(s)
+	for i, c := range text {
+		if c == CR || c == LF {
+			text[i] = ' '
+		}
+	}
 	return &RespValue{
 		Type: Error,
-		Text: []byte(s),
+		Text: text,
 	}
 }
 
